@@ -280,7 +280,7 @@ _WORK = {}
 def _workdir(repo):
     pid = os.getpid()
     if pid not in _WORK:
-        tmp = tempfile.mkdtemp(prefix="sa_sweep_", dir=os.environ.get("VERIF_SCRATCH", "/tmp"))
+        tmp = tempfile.mkdtemp(prefix="w_", dir=os.environ["SA_SWEEP_PARENT"])
         shutil.copytree(os.path.join(repo, "src"), os.path.join(tmp, "src"), ignore=shutil.ignore_patterns("__pycache__"))
         _WORK[pid] = tmp
     return _WORK[pid]
@@ -343,8 +343,10 @@ def main():
         for m in muts:
             print(m["file"], m["func"], m["line"], m["op"], "|", m["old"][:50].replace("\n", " "), "->", m["new"][:50].replace("\n", " "))
         return 0
-    import atexit
     import multiprocessing as mp
+
+    parent = tempfile.mkdtemp(prefix="sa_sweeprun_", dir=os.environ.get("VERIF_SCRATCH", "/tmp"))
+    os.environ["SA_SWEEP_PARENT"] = parent  # workers create their scratch copies below it; only this run's copies are removed at the end
 
     n = {"killed": 0, "broken": 0, "survived": 0}
     with open(a.out, "w") as fh, mp.Pool(a.jobs) as pool:
@@ -358,10 +360,7 @@ def main():
                     print(f"  {tot}/{len(muts)} {n}", file=sys.stderr)
         finally:
             pass
-    # worker scratch dirs
-    for d in os.listdir(os.environ.get("VERIF_SCRATCH", "/tmp")):
-        if d.startswith("sa_sweep_"):
-            shutil.rmtree(os.path.join(os.environ.get("VERIF_SCRATCH", "/tmp"), d), ignore_errors=True)
+    shutil.rmtree(parent, ignore_errors=True)
     print(json.dumps(n))
     return 0
 
